@@ -20,7 +20,11 @@ import (
 // navigation commands land on the right line or fail without moving.
 
 func vMode(entry model.Addr) (*mode, []consoleui.Command) {
-	code, err := rvprog.Build(rvprog.ThreeBlocks, entry)
+	return vModeOf(rvprog.ThreeBlocks, entry)
+}
+
+func vModeOf(words []uint32, entry model.Addr) (*mode, []consoleui.Command) {
+	code, err := rvprog.Build(words, entry)
 	sym.Assert(err == nil, "program builds")
 	if err != nil {
 		return nil, nil
@@ -53,7 +57,14 @@ func vSetCursor(m *mode) int {
 
 // VerifC22DisasmActions: no action crashes.
 func VerifC22DisasmActions() {
-	m, cmds := vMode(rvprog.Base + 0x14)
+	words, entry := rvprog.ThreeBlocks, model.Addr(rvprog.Base+0x14)
+	switch sym.Choose(3) {
+	case 1:
+		words = rvprog.FourBlocks // 2,2,1,1: block moves over ranges with equal end blocks
+	case 2:
+		words, entry = rvprog.Blocks441, rvprog.Base // 4,4,1
+	}
+	m, cmds := vModeOf(words, entry)
 	if m == nil {
 		return
 	}
